@@ -187,7 +187,10 @@ def eval_case(case):
     chyp = H['rows'] == 'true' and H['caps'] == 'true'
     tags.append('tie-ctos-hyp:' + ('hold' if chyp else 'rows-or-caps'))
     if chyp and 'cpu' in real and 'gpu' in real and not np.array_equal(real['cpu'][3:], real['gpu'][3:]):
-        broken.append(('path-tie: hypotheses of c_to_s_paths_agree hold but the captured records of the two classes differ', f'ppo={ppo}'))
+        ix = np.argwhere(real['cpu'][3:] != real['gpu'][3:])[0]
+        broken.append(('path-tie: hypotheses of c_to_s_paths_agree hold but the captured records of the two classes differ',
+                       f'ppo={ppo} time={tcap} first difference at s[{3 + int(ix[0])}, {int(ix[1])}, {int(ix[2])}]: '
+                       f'WaveSim {float(real["cpu"][3 + ix[0], ix[1], ix[2]])!r} WaveSimCuda {float(real["gpu"][3 + ix[0], ix[1], ix[2]])!r}'))
     tags.append(f'tie-block:{bx}x{by}')
     return broken, tags
 
@@ -354,7 +357,13 @@ def corr(ck, n):
         except Exception as ex:
             broken, tags = [('path-tie raised', f'{type(ex).__name__}: {ex}'[:300])], []
         for name, detail in broken:
-            ck.broken_tie(name, detail, inp={'clause': 'path-tie', **cs})
+            if 'hold but' in name:
+                # the two REAL classes, given the same memory and tables (table hypotheses of the *_paths_agree theorem evaluated and
+                # true), leave different results: that is a failing input of the CPU / GPU-kernel clause itself, not only a broken tie
+                ck.violation('config-code-path-io', 'WaveSim and WaveSimCuda differ on the same memory and tables: ' + name.split('hold but ')[1],
+                             {'clause': 'path-tie', **cs}, {'difference': detail}, {'equal': 'both code paths'})
+            else:
+                ck.broken_tie(name, detail, inp={'clause': 'path-tie', **cs})
         ck.case(key=('path-tie', cs['seed']), sample={'clause': 'path-tie', **cs}, tag=['clause:path-tie'] + tags)
     # whole c_prop (waveform evaluator + accumulation) of both classes against cpuCProp / gpuCProp
     for _ in range(max(4, n // 2)):
